@@ -265,7 +265,7 @@ class Check:
             elif getattr(self, "inproc_broken", None):
                 # the real parser / generator cannot be run in process on this tree: every request is answered `unavailable`
                 # (callers skip their comparison; the broken tie itself was reported by build_harness)
-                return ["unavailable" if l.startswith("run ") else "lexerr" for l in lines]
+                return ["unavailable" if l.startswith(("run ", "runq ")) else "lexerr" for l in lines]
         exe = os.path.join(CACHE, "target", harness, profile, binary)
         rc, out, err = sh([exe], inp="\n".join(lines) + "\n", timeout=3600, cwd=cwd, env=env)
         if rc != 0:
